@@ -142,7 +142,23 @@ def run(repo: Repo, chk: Check):
                 if "tail" in n:
                     continue
                 ds = crd.at(tid, n)
-                if ds and all(d.value is not None and "Return" in norm(d.value) for d in ds):
+
+                def about_returns(d):
+                    # any(... nodes_of_class(Return) ...), or a flag raised inside a loop over the Return nodes
+                    if d.value is None:
+                        return False
+                    if "Return" in norm(d.value):
+                        return True
+                    if isinstance(d.value, ast.Constant) and isinstance(d.value.value, bool):
+                        if d.value.value is False:
+                            return True
+                        p_ = ccfg.nodes[d.node].ast
+                        while p_ is not None and p_ is not cf:
+                            if isinstance(p_, ast.For) and "Return" in norm(p_.iter):
+                                return True
+                            p_ = getattr(p_, "parent", None)
+                    return False
+                if ds and all(about_returns(d) for d in ds) and any(not (isinstance(d.value, ast.Constant) and d.value.value is False) for d in ds):
                     ov_base[n] = S(True)  # 'the function has an early return'
             tail = [n for n in names if "tail" in n]
             verdicts = {}
